@@ -1,4 +1,5 @@
 """C16 check configuration (see checks/props.py for the meaning of the keys)."""
+import os, re
 
 
 def _parse(c):
@@ -29,9 +30,12 @@ def _parse(c):
         rules.append(r)
     d["rules"] = rules
     nops = int(nxt())
-    nev = nx = 0
+    nev = nx = nt = 0
     keys = set()
     nows = []
+    cur = None          # generation of the limiters map in ns (I / T ops)
+    slack = 0           # max (event now - generation): how stale a limiter's stamp can be
+    deleted_after_use = False
     tsrel = {"in": 0, "past": 0, "future": 0}
     window = d["count"] * d["interval"]
     for _ in range(nops):
@@ -43,12 +47,19 @@ def _parse(c):
             nf = int(nxt())
             for _ in range(nf): nxt(); nxt()
             nows.append(now)
+            if cur is not None: slack = max(slack, now - cur)
             if ts > now + d["interval"]: tsrel["future"] += 1
             elif ts < now - window: tsrel["past"] += 1
             else: tsrel["in"] += 1
-        else:
+        elif t.startswith("X"):
             nx += 1
-    d.update(nev=nev, nx=nx, nkeys=len(keys), nows=nows, tsrel=tsrel)
+        elif t.startswith("T"):
+            nt += 1; cur = int(t[1:]) * 1000
+        elif t.startswith("I"):
+            cur = int(t[1:]) * 1000
+    eff_us = max(d["exp"] * 1000000, window) // 1000
+    d.update(nev=nev, nx=nx, nt=nt, nkeys=len(keys), nows=nows, tsrel=tsrel, slack=slack, eff_us=eff_us,
+             window=window)
     return d
 
 
@@ -89,6 +100,10 @@ def c16_classify(c, i):
         if any(j == 0 for j in jumps): out.append("clock:still")
     for k, v in d["tsrel"].items():
         if v: out.append("ts:" + k)
+    if d["nt"]:
+        out.append("map-ticks=" + ("1-9" if d["nt"] < 10 else "10+"))
+        out.append("expiration" + (">=" if d["eff_us"] * 1000 >= d["window"] + d["slack"] else "<") + "window+stamp-slack")
+        if any(t.startswith("t:") and len(t) > 2 for t in i): out.append("map-ticks:deleted")
     if d["nx"]:
         out.append("expiry-op")
         if any(t.startswith("x:") and len(t) > 2 for t in i): out.append("expiry-op:deleted")
@@ -96,20 +111,67 @@ def c16_classify(c, i):
     return out
 
 
+def sig_stamp_slack(c, i, m, k):
+    """known finding C16-expiry-stamp-granularity: logical maintenance ticks, and the effective
+    expiration is shorter than the bucket window plus the largest staleness of a generation stamp
+    in the case (the hypothesis of passed_le_limit_across_ticks does not hold)"""
+    try:
+        d = _parse(c)
+    except Exception:
+        return False
+    return d["nt"] > 0 and d["eff_us"] * 1000 < d["window"] + d["slack"]
+
+
+# ---------------------------------------------------------------- source fact
+# VerifMaintenanceOnce (export_verif_c16_map.go) is a copy of the body of the `case <-ticker.C:`
+# branch of limitersMap.maintenance with nowTs as a parameter. The fact: both bodies, comments and
+# blanks removed, are the same statements (the hook additionally collects the removed keys).
+def _strip(src):
+    src = re.sub(r"/\*.*?\*/", "", src, flags=re.S)
+    src = re.sub(r"//[^\n]*", "", src)
+    return [re.sub(r"\s+", " ", l).strip() for l in src.split("\n") if l.strip()]
+
+
+def fact_maintenance_body(repo):
+    d = os.path.join(repo, "plugin/action/throttle")
+    real = _strip(open(os.path.join(d, "limiters_map.go")).read())
+    hook = _strip(open(os.path.join(d, "export_verif_c16_map.go")).read())
+    try:
+        a = real.index("func (l *limitersMap) maintenance(ctx context.Context) {")
+        a = real.index("case <-ticker.C:", a)
+        a = real.index("l.mu.Lock()", a)
+        b = real.index("l.mu.Unlock()", a)
+        body = real[a + 1:b]
+        ha = hook.index("func VerifMaintenanceOnce(p *Plugin, nowTs int64) []string {")
+        ha = hook.index("l.mu.Lock()", ha)
+        hb = hook.index("l.mu.Unlock()", ha)
+        hbody = [l for l in hook[ha + 1:hb] if l != "removed = append(removed, key)"]
+    except ValueError as e:
+        return False, "maintenance loop / hook not found in the expected shape: %s" % e
+    body = [l for l in body if l != "nowTs := time.Now().UnixMicro()"]
+    if body != hbody:
+        return False, "maintenance iteration differs from VerifMaintenanceOnce: real=%r hook=%r" % (body, hbody)
+    if "go limiters[p.pipeline].maintenance(p.ctx)" not in _strip(open(os.path.join(d, "throttle.go")).read()):
+        return False, "Start no longer runs limitersMap.maintenance"
+    return True, ""
+
+
 CFG = {
     "manifest": {
-        "text": "Proof: Lean theorems (Props/C16.lean) about an executable model of the throttle action's in-memory limiter (bucket ring with shift/reset, isAllowed, limit distributions with stealing, first-match rule choice, limiter key, limiters-map expiry as an op): the model refines an abstract machine with one never-reset counter per (limiter key, bucket, distribution column) for every op sequence, from which per-bucket limits, distribution shares, no rejection under the limit and key independence follow. The model is tied to the real throttle.Plugin (factory, Start, Do, injected clock) by differential runs on every check.",
+        "text": "Proof: Lean theorems (Props/C16.lean) about an executable model of the throttle action's in-memory limiter (bucket ring with shift/reset, isAllowed, limit distributions with stealing, first-match rule choice, limiter key, limiters-map expiry as an op): the model refines an abstract machine with one never-reset counter per (limiter key, bucket, distribution column) for every op sequence, from which per-bucket limits, distribution shares, no rejection under the limit and key independence follow; the map's generations and maintenance iteration are modelled on top (a tick = the expire ops of the keys it deletes) and proved safe when the expiration covers the window plus the staleness of a generation stamp, with a counterexample for an access that does not refresh the generation. The model is tied to the real throttle.Plugin (factory, Start, Do, injected clock) by differential runs on every check.",
         "note": "Trusted: Lean kernel + the three standard axioms; fdmodel compilation; harness. Assumed: clock non-decreasing and later than 1970-01-01 plus one retained window; no int64 overflow; limiter expiry only after the key was silent for a whole retained window (made true by the fix: limiter_expiration is raised to bucket_interval*buckets_count; the map's generation stamp has 1 s granularity). Redis backend out of scope. Per-value limits of a distribution are inputs (float rounding happens at configuration time; the harness reports sum of shares vs limit).",
         "technique": "Lean 4 proof (simulation invariant over op lists, refinement to unbounded counters) + differential correspondence on the real plugin",
     },
     "props_modules": ["FileD.Props.C16"],
+    "facts": [("throttle-maintenance-iteration", fact_maintenance_body)],
     "nontrivial": c16_nontrivial,
     "classify": c16_classify,
-    "rule": "exhaustive sequences up to length 3 (quick) / 4 (thorough) over (event time relative to the window) x (clock step) for buckets 1..3 x limit 0..2; random sequences of 1-300 events, 1-5 keys, 1-3 rules, buckets 1..6, six interval scales, clock jumps 0..3 windows, count and size kinds, distributions with 0-3 listed ratios; a stream near the epoch (minID = 0 sentinel); cases with real map maintenance (X ops). distinct = distinct case line; non-trivial = at least one event passed and one was discarded",
-    "corr_name": "Throttle.step (results, final bucket rings of every limiter, distribution shares) = throttle.Plugin.Do on the in-memory backend",
+    "rule": "exhaustive sequences up to length 3 (quick) / 4 (thorough) over (event time relative to the window) x (clock step) for buckets 1..3 x limit 0..2; random sequences of 1-300 events, 1-5 keys, 1-3 rules, buckets 1..6, six interval scales, clock jumps 0..3 windows, count and size kinds, distributions with 0-3 listed ratios; a stream near the epoch (minID = 0 sentinel); cases with real map maintenance (X ops); map life cycle cases on a logical wall clock (I/T ops: busy keys used between all maintenance iterations with their bucket exhausted, idle keys that expire, keys re-created after a silence; expiration below / just above / far above the window). distinct = distinct case line; non-trivial = at least one event passed and one was discarded",
+    "corr_name": "Throttle.step + expandStep (results, keys removed by every maintenance iteration, effective expiration, final bucket rings and generations of every limiter, distribution shares) = throttle.Plugin.Do on the in-memory backend",
     "trusted_base": [
         "verif accessors of plugin/action/throttle/export_verif_c16.go (nowFn injection, bucket dump, map keys, parseLimitDistribution)",
-        "wall-clock maintenance of the limiters map is an environment input: the keys it deleted are read from the run and replayed by the model as expire ops",
+        "X ops: wall-clock maintenance of the limiters map is an environment input: the keys it deleted are read from the run and replayed by the model as expire ops",
+        "T ops: VerifMaintenanceOnce is a copy of the maintenance loop body with the time as a parameter; the source fact throttle-maintenance-iteration compares it with the real loop body on every run",
         "modelled, not verified: insane-json Dig/AsString on flat string fields, xtime.ParseTime(unixtimenano)",
     ],
     "assumptions": [
@@ -121,6 +183,7 @@ CFG = {
     "signatures": {
         # known finding C16-rule-index-byte-wraps: only configurations with more rules than the
         # rule index byte of the limiter key can tell apart
+        "expiry_within_stamp_slack": sig_stamp_slack,
         "more_than_256_rules": lambda c, i, m, k: len(c) > 4 and c[4].isdigit() and int(c[4]) >= k.get("min_rules", 257),
     },
     "chunk": 4000,
